@@ -243,15 +243,22 @@ func runC10(t *testing.T, x c10Scn, verbose bool) (c vfCase) {
 				}
 			} else if pk.InFR && !prevFR {
 				lossSignal = true
-				lim := prevCwnd / 2
+				// the SACK that reveals the loss may first grow cwnd (slow start adds at most cwnd, i.e.
+				// doubles it) and is then halved: the result never exceeds the value before the SACK,
+				// except for the 4*MTU / MinCwnd floors, and equals the new ssthresh
+				lim := prevCwnd
 				if 4*uint32(mtu) > lim {
 					lim = 4 * uint32(mtu)
 				}
 				if uint32(x.MinCwnd) > lim {
 					lim = uint32(x.MinCwnd)
 				}
-				if pk.CWND > lim {
-					c.fail("cwnd-not-cut-on-fast-recovery", "t=%v: entered fast recovery with cwnd %d, expected <= max(%d/2, 4*MTU, MinCwnd) = %d", s.net.now(), pk.CWND, prevCwnd, lim)
+				ssth := pk.SSThresh
+				if uint32(x.MinCwnd) > ssth {
+					ssth = uint32(x.MinCwnd)
+				}
+				if pk.CWND > lim || pk.CWND != ssth {
+					c.fail("cwnd-not-cut-on-fast-recovery", "t=%v: entered fast recovery with cwnd %d (ssthresh %d), cwnd before the SACK %d, expected cwnd = ssthresh <= max(previous cwnd, 4*MTU, MinCwnd) = %d", s.net.now(), pk.CWND, pk.SSThresh, prevCwnd, lim)
 				}
 			}
 			if pk.PendingN > 0 && pk.InflightN > 0 {
